@@ -330,10 +330,11 @@ def _cv(v):       # eighths -> mkVec
 
 
 def _cz(n):
-    return f"({int(n)})%Z"
+    return atom(f"({int(n)})%Z") if abs(int(n)) >= 10 ** 9 else f"({int(n)})%Z"
 
 
 def coq_dataset(ds):
+    slit = satom    # tokens repeat all over the term
     S = llit([f"mkSample {slit(s['token'])} {_cz(s['timestamp'])} {slit(s['prev'])} {slit(s['next'])}" for s in ds["samples"]])
     SD = llit([f"mkSD {slit(d['token'])} {slit(d['sample'])} {slit(d['ego'])} {slit(d['cs'])} {blit(d['key'])}" for d in ds["sample_data"]])
     E = llit([f"mkEgo {slit(e['token'])} {_cq(e['q'])} {_cv(e['t'])}" for e in ds["ego_pose"]])
@@ -348,8 +349,30 @@ def coq_dataset(ds):
     return f"(mkDataset\n {S}\n {SD}\n {E}\n {C}\n {SN}\n {A}\n {I}\n {CT}\n {AT}\n {V})"
 
 
+def flit(x):
+    """exact literal of a binary64 value: small denominators as n # d, otherwise fl m e = m / 2^e
+    (Model/Dataset.v), which keeps the term small"""
+    fr = Fraction(x)
+    if fr.denominator <= 4096:
+        return qlit(fr)
+    e = fr.denominator.bit_length() - 1
+    assert fr.denominator == 1 << e
+    return f"(fl {zlit(fr.numerator)} {e})"
+
+
+A0, A1 = "\x00", "\x01"     # markers around literals that are shared through `let` when they repeat
+
+
+def atom(text):
+    return A0 + text + A1
+
+
+def satom(s):
+    return atom(slit(s)) if len(s) >= 6 else slit(s)
+
+
 def _ql(xs):
-    return llit([qlit(x) for x in xs])
+    return atom(llit([flit(x) for x in xs]))
 
 
 def _cvis(v):
@@ -369,14 +392,33 @@ def coq_obs(o):
         objs = []
         for ob in fr["objects"]:
             hist = "None" if ob["hist"] is None else \
-                "(Some " + llit([f"mkOPast {_ql(h['pos'])} {_ql(h['ori'])} {_ql(h['size'])}" for h in ob["hist"]]) + ")"
-            objs.append(f"mkOObj {slit(ob['uuid'])} {slit(ob['label'])} {slit(ob['name'])} {llit([slit(a) for a in ob['attrs']])} "
+                atom("(Some " + llit([f"mkOPast {llit([flit(x) for x in h['pos']])} {llit([flit(x) for x in h['ori']])} "
+                                      f"{llit([flit(x) for x in h['size']])}" for h in ob["hist"]]) + ")")
+            objs.append(f"mkOObj {satom(ob['uuid'])} {slit(ob['label'])} {satom(ob['name'])} {atom(llit([slit(a) for a in ob['attrs']]))} "
                         f"{_ql(ob['size'])} {_cz(ob['pts'])} {_cvis(ob['vis'])} {_ql(ob['pos'])} {_ql(ob['ori'])} {_cz(ob['unix_time'])} "
                         f"{slit(ob['frame_id'])} {hist}")
         mat = fr["ego2map"]["matrix"] if fr["ego2map"] else []
-        tfs = llit([f"mkORigid {_ql(t['pos'])} {_ql(t['rot'])} {slit(t['src'])} {slit(t['dst'])}" for t in fr["transforms"]])
+        tfs = atom(llit([f"mkORigid {llit([flit(x) for x in t['pos']])} {llit([flit(x) for x in t['rot']])} {slit(t['src'])} {slit(t['dst'])}"
+                         for t in fr["transforms"]]))
         frames.append(f"mkOFrame {_cz(fr['unix_time'])} {slit(fr['frame_name'])} {llit(objs)} {_ql(mat)} {tfs}")
     return "(OFrames " + llit(frames) + ")"
+
+
+def share_atoms(term):
+    """replace literals that occur several times by let-bound variables (type-checked and evaluated once)"""
+    import re
+
+    pat = re.compile(A0 + "([^" + A0 + A1 + "]*)" + A1)
+    count = {}
+    for m in pat.finditer(term):
+        count[m.group(1)] = count.get(m.group(1), 0) + 1
+    names = {}
+    for text, n in count.items():
+        if n >= 2 and len(text) >= 8:
+            names[text] = f"x{len(names)}"
+    body = pat.sub(lambda m: names.get(m.group(1), m.group(1)), term)
+    lets = "".join(f"let {v} := {text} in\n" for text, v in names.items())
+    return "(" + lets + body + ")"
 
 
 COQ_TASK = {"detection": "Detection", "tracking": "Tracking", "sensing": "Sensing"}
@@ -701,11 +743,11 @@ class LoadCorr(Corr):
 
     def coq_term(self, case, obs):
         items = [f"({COQ_TASK[t]}, {COQ_FRAME[f]}, {blit(m)}, {coq_obs(o)})" for (t, f, m), o in zip(case["configs"], obs)]
-        return f"(check_case {coq_dataset(case['ds'])}\n {llit(items)})"
+        return share_atoms(f"(check_case {coq_dataset(case['ds'])}\n {llit(items)})")
 
     def coq_debug(self, case, obs):
         t, f, m = case["configs"][0]
-        return f"(load {coq_dataset(case['ds'])} {COQ_TASK[t]} {COQ_FRAME[f]} {blit(m)})"
+        return share_atoms(f"(load {coq_dataset(case['ds'])} {COQ_TASK[t]} {COQ_FRAME[f]} {blit(m)})")
 
     def oracle(self, case, obs):
         if case["fault"]:
